@@ -796,7 +796,7 @@ static struct expr *
 builtinfunc(struct scope *s, enum builtinkind kind)
 {
 	struct expr *e, *toeval;
-	struct type *t;
+	struct type *t, *t2;
 	struct member *m;
 	char *name;
 	unsigned long long offset;
@@ -847,7 +847,10 @@ builtinfunc(struct scope *s, enum builtinkind kind)
 	case BUILTINTYPESCOMPATIBLEP:
 		t = typename(s, NULL, NULL);
 		expect(TCOMMA, "after type name");
-		e = mkconstexpr(&typeint, typecompatible(t, typename(s, NULL, NULL)));
+		t2 = typename(s, NULL, NULL);
+		if (!t || !t2)
+			error(&tok.loc, "expected type name");
+		e = mkconstexpr(&typeint, typecompatible(t, t2));
 		break;
 	case BUILTINUNREACHABLE:
 		e = mkexpr(EXPRBUILTIN, &typevoid, NULL);
@@ -862,6 +865,8 @@ builtinfunc(struct scope *s, enum builtinkind kind)
 			e->base = mkunaryexpr(TBAND, e->base);
 		expect(TCOMMA, "after va_list");
 		e->type = typename(s, &e->qual, &toeval);
+		if (!e->type)
+			error(&tok.loc, "expected type name");
 		e->toeval = toeval;
 		break;
 	case BUILTINVACOPY:
